@@ -584,7 +584,7 @@ class Interp:
         if node.id in ("str", "int", "list", "tuple", "dict", "set", "bytes", "float", "bool", "object"):
             return TypeVal(node.id)
         if node.id in ("isinstance", "len", "map", "locals", "hasattr", "any", "all", "sorted", "enumerate",
-                       "range", "zip", "getattr", "iter", "print", "min", "max", "repr", "type"):
+                       "range", "zip", "getattr", "iter", "print", "min", "max", "repr", "type", "ord", "chr", "hex"):
             return Builtin(node.id)
         if node.id in ("ValueError", "TypeError", "KeyError", "NotImplementedError", "Exception", "StopIteration"):
             return TypeVal(node.id)
@@ -716,6 +716,22 @@ class Interp:
                     out.append(self.to_str(args[k]))
                     k += 1
                     i = j + 2
+                    continue
+                import re as _re
+                m_ = _re.match(r"%([0 #+-]*)(\d*)([xXdos])", p[j:])
+                if m_:
+                    if k >= len(args):
+                        raise RaiseEx("TypeError", "not enough arguments for format string", None)
+                    v_ = args[k]
+                    k += 1
+                    spec_ = m_.group(1) + m_.group(2) + m_.group(3)
+                    if isinstance(v_, Sym):
+                        out.append(Sym("fmt(%s,%s)" % (v_.name, spec_), "str", True))
+                    elif isinstance(v_, (int, str)) and not isinstance(v_, bool):
+                        out.append(("%" + spec_) % v_)
+                    else:
+                        raise Unsupported("format spec %r applied to %r" % (spec_, v_))
+                    i = j + m_.end()
                     continue
                 raise Unsupported("format spec %r" % p[j:j + 4])
         if k != len(args):
@@ -853,7 +869,7 @@ class Interp:
         raise Unsupported("comparison %s" % type(op).__name__)
 
     def contains(self, coll, item, node):
-        if isinstance(coll, AStr) or (isinstance(coll, str) and isinstance(item, (str, AStr))):
+        if isinstance(coll, AStr) or (isinstance(coll, str) and isinstance(item, (str, AStr, Sym))):
             if isinstance(item, str):
                 if isinstance(coll, str):
                     return item in coll
@@ -1142,6 +1158,12 @@ class Interp:
                     return o.attrs[a]
                 return Sym("%s.%s" % (o.name, a), "any", None)
             raise Unsupported("getattr(%r, %r)" % (o, a))
+        if name in ("ord", "chr", "hex"):
+            v = pos[0]
+            if isinstance(v, (Sym, AStr)):
+                nm = v.name if isinstance(v, Sym) else v.render()
+                return Sym("%s(%s)" % (name, nm), "int" if name == "ord" else "str", True)
+            return {"ord": ord, "chr": chr, "hex": hex}[name](v)
         if name == "iter":
             return pos[0]
         if name == "print":
@@ -1436,8 +1458,11 @@ class Interp:
                     if j < 0:
                         raise Unsupported("unterminated format field")
                     field = p[i + 1:j]
-                    if ":" in field or "!" in field:
-                        raise Unsupported("format spec in %r" % field)
+                    spec = None
+                    if "!" in field:
+                        raise Unsupported("conversion in format field %r" % field)
+                    if ":" in field:
+                        field, spec = field.split(":", 1)
                     name, attrs = field, []
                     if "." in field:
                         name, *attrs = field.split(".")
@@ -1455,7 +1480,15 @@ class Interp:
                             v = v.attrs.get(a, Sym("%s.%s" % (v.name, a), "str", True))
                         else:
                             raise Unsupported("format attribute on %r" % (v,))
-                    out.append(self.to_str(v))
+                    if spec:
+                        if isinstance(v, Sym):
+                            out.append(Sym("fmt(%s,%s)" % (v.name, spec), "str", True))
+                        elif isinstance(v, (int, float, str)) and not isinstance(v, bool):
+                            out.append(format(v, spec))
+                        else:
+                            raise Unsupported("format spec %r applied to %r" % (spec, v))
+                    else:
+                        out.append(self.to_str(v))
                     i = j + 1
                 elif ch == "}":
                     if p[i:i + 2] == "}}":
